@@ -49,6 +49,7 @@ pub fn gen(rng: &mut Rng, _cfg: &PCfg, size: usize) -> Doc {
     let n_lines = match size {
         0 => rng.below(4),
         1 => rng.below(12),
+        3 => rng.range(2000, 3000),
         _ => rng.range(8, 50),
     };
     let mut next_id = 0u64;
